@@ -140,7 +140,10 @@ ABSL_ATTRIBUTE_NOINLINE void GarbageCollector<R>::keep_reclaim() noexcept {
   ::std::vector<ReclaimTask> tasks;
   size_t backoff_us = 1000;
   tasks.reserve(batch);
-  while (running) {
+  // After the stop marker was consumed, tasks consumed in the same batch may
+  // still be waiting for a critical region to close: keep reclaiming them
+  // instead of dropping them un-invoked when the thread exits.
+  while (running || index < tasks.size()) {
     if (index == tasks.size()) {
       tasks.clear();
       running = consume_reclaim_task(batch, tasks);
